@@ -116,6 +116,34 @@ BUILDERS = {
     reg.add(node, S(fail=["mtime"]))
     R.update(plan=plan, reg=reg, out=node, exp=exp, failing=node)
 ''',
+    # a plan-building helper reached twice through different caller chains: the second creation fails
+    ("call", "user_call", "helper_reused"): '''
+    plan = uberjob.Plan(); reg = None
+    def helper():
+        node = plan.call(boom); R["exp"] = chain_here()
+        return node
+    def path_a():
+        return helper()
+    def via():
+        return helper()
+    def path_b():
+        return via()
+    first = path_a()
+    second = path_b()
+    R.update(plan=plan, reg=reg, out=second, failing=second)
+''',
+    ("add", "store_write", "helper_reused"): '''
+    plan = uberjob.Plan(); reg = uberjob.Registry()
+    def helper(fail):
+        node = plan.call(ident, 1)
+        reg.add(node, S(fail=fail, present=False)); R["exp"] = chain_here()
+        return node
+    def deeper(fail):
+        return helper(fail)
+    first = helper([])
+    second = deeper(["write"])
+    R.update(plan=plan, reg=reg, out=[first, second], failing_fn="write")
+''',
     ("run_output", "output_gather"): '''
     plan = uberjob.Plan(); reg = None
     x = plan.call(lambda: [])
@@ -163,9 +191,10 @@ def report(err, exp):
 '''
 
 
-def script(op, failing, depth, W):
-    """A script whose creating line runs with a Python stack of exactly `depth` frames."""
-    body = BUILDERS[(op, failing)]
+def script(op, failing, depth, W, variant=""):
+    """A script whose creating line runs with a Python stack of exactly `depth` frames (plus the
+    helper frames of the variant, if any)."""
+    body = BUILDERS[(op, failing, variant) if variant else (op, failing)]
     run_here = op == "run_output"
     lines = [PRELUDE, f"W = {W}", RUNNER]
     # the innermost function (or module level for depth 1) builds the plan; for run_output it also runs it there
@@ -190,11 +219,12 @@ def script(op, failing, depth, W):
 
 
 def run_row(arg):
-    op, failing, depth, W, repo_src = arg
+    op, failing, depth, W, repo_src = arg[:5]
+    variant = arg[5] if len(arg) > 5 else ""
     with common.scratch("vf-c19-") as d:
         p = os.path.join(d, f"case_{op}_{failing}_{depth}.py")
         with open(p, "w") as f:
-            f.write(script(op, failing, depth, W))
+            f.write(script(op, failing, depth, W, variant))
         env = dict(os.environ)
         env["PYTHONPATH"] = repo_src
         env["PYTHONDONTWRITEBYTECODE"] = "1"
@@ -205,7 +235,7 @@ def run_row(arg):
             rep = json.loads(line[7:])
     if rep is None:
         raise common.MachineryError(f"generated script for {op}/{failing}/depth {depth} produced no report:\n{pr.stdout[-800:]}\n{pr.stderr[-1500:]}")
-    rep.update({"op": op, "failing": failing, "depth": depth, "W": W})
+    rep.update({"op": op, "failing": failing, "depth": depth, "W": W, "variant": variant})
     return rep
 
 
@@ -223,7 +253,7 @@ def run(tier, seed):
         raise common.MachineryError(f"TLC did not verify Attribution.tla: {r.violated}\n{r.out[-1500:]}")
     depths = [1, 2, 3, 4, 5, 6] if tier == "quick" else [1, 2, 3, 4, 5, 6, 7, 8]
     Ws = [1] if tier == "quick" else [1, 3]
-    rows = [(op, fl, d, W, common.REPO_SRC) for (op, fl) in BUILDERS for d in depths for W in Ws]
+    rows = [(k[0], k[1], d, W, common.REPO_SRC, k[2] if len(k) > 2 else "") for k in BUILDERS for d in depths for W in Ws]
     reps = common.pmap(run_row, rows)
     events = []
     for rp in reps:
@@ -234,23 +264,23 @@ def run(tier, seed):
                      distinct_nontrivial=len({(e["op"], e["failing"], e["n"]) for e in events}))
     res.coverage["rows"] = len(rows)
     res.coverage["exhaustive"] = True
-    res.coverage["depth_mismatch"] = sum(1 for rp in reps if rp["n"] != rp["depth"])
+    res.coverage["depth_mismatch"] = sum(1 for rp in reps if rp["n"] != rp["depth"] and not rp["variant"])
     res.coverage["rule"] = ("the complete table: creating operation x failing physical call (user call, implicit gather of plan.call / plan.unpack arguments, explicit gather, "
                             "unpack, store write, store read-back, source read, modified-time query of a source and of a stored call, gather of run(output=...)) x stack depth "
                             "1..6 (quick) / 1..8 x worker counts; each row a generated script in a fresh interpreter; every row is a distinct case")
     for _tid, clauses in rej.items():
         for l, c in clauses:
             rp = reps[l - 1]
-            res.add_violation(f"C19:{c}:{rp['op']}:{rp['failing']}",
-                              f"{rp['op']}/{rp['failing']} at stack depth {rp['depth']}: {c} (frames named: {rp['obs']}, truncated {rp['trunc']}, rendered {rp['rendered']}, error {rp['err']})",
-                              {"row": {k: rp[k] for k in ("op", "failing", "depth", "W")}, "report": rp})
+            res.add_violation(f"C19:{c}:{rp['op']}:{rp['failing']}" + (":" + rp["variant"] if rp["variant"] else ""),
+                              f"{rp['op']}/{rp['failing']}{'/' + rp['variant'] if rp['variant'] else ''} at stack depth {rp['depth']}: {c} (frames named: {rp['obs']}, truncated {rp['trunc']}, rendered {rp['rendered']}, error {rp['err']})",
+                              {"row": {k: rp[k] for k in ("op", "failing", "depth", "W", "variant")}, "report": rp})
     res.add_samples([{k: reps[i][k] for k in ("op", "failing", "depth", "obs", "trunc", "rendered")} for i in (0, len(reps) // 2)])
     return res
 
 
 def replay(w):
     row = w["witness"]["row"]
-    rp = run_row((row["op"], row["failing"], row["depth"], row["W"], common.REPO_SRC))
+    rp = run_row((row["op"], row["failing"], row["depth"], row["W"], common.REPO_SRC, row.get("variant", "")))
     e = {"op": rp["op"], "failing": rp["failing"], "n": rp["n"], "raised": rp["raised"], "callok": rp["callok"], "obs": rp["obs"],
          "trunc": rp["trunc"], "rendered": rp["rendered"], "rendered_trunc_first": rp["rendered_trunc_first"]}
     _acc, rej, _ = tlc.validate_traces("AttributionTrace", "AttributionTrace.cfg", [{"events": [e]}])
